@@ -1103,7 +1103,7 @@ struct RCEngine : public vh::Engine
       g_pendingLine.clear();
       // provocation by real, unscheduled threads (testing, not part of the model): a few lines per shard, fixed sizes per tier
       {
-         const uint64_t f = tier.thorough ? 10 : 1;
+         const uint64_t f = tier.thorough ? 3 : 1;
          fprintf(out, "case %u\n", caseNo++);
          fprintf(out, "stress lastrefs 2 %llu\n", (unsigned long long)(200000*f));
          fprintf(out, "stress lastrefs 3 %llu\n", (unsigned long long)(60000*f));
